@@ -14,7 +14,8 @@ from .c03 import gen_tree, TCH
 
 LEAN_MODULE = 'QbeeModel.Props.C01'
 REQUIRED = ['exit_do_leaves_this_loop', 'for_passes_exit_do', 'exit_for_leaves_this_loop', 'do_passes_exit_for', 'execList_stops',
-            'for_empty_range', 'while_false_skips', 'do_until_nonzero_skips'] + ['allSpecOk_true', 'decodeTableOk_true', 'compileC_correct', 'idiv_deviates_from_qbasic', 'idiv_mod_agree_nonneg']
+            'for_empty_range', 'while_false_skips', 'do_until_nonzero_skips', 'call_byval_preserves_caller', 'call_writes_only_refs',
+            'call_ref_gets_callee_value', 'exit_sub_returns', 'end_in_sub_ends_program', 'call_unfold'] + ['allSpecOk_true', 'decodeTableOk_true', 'compileC_correct', 'idiv_deviates_from_qbasic', 'idiv_mod_agree_nonneg']
 KIND = {'i': 'i', 'l': 'l', 's': 's', 'd': 'd', 'str': 't'}
 
 
@@ -175,7 +176,7 @@ def _src_task(t):
 
 
 def classify_src(src):
-    ks = [k for k in ('EXIT DO', 'EXIT FOR', 'DO UNTIL', 'DO WHILE', 'LOOP UNTIL', 'LOOP WHILE', 'WHILE', 'FOR', 'SELECT CASE', 'IF') if k in src]
+    ks = [k for k in ('CALL', 'EXIT SUB', 'EXIT DO', 'EXIT FOR', 'DO UNTIL', 'DO WHILE', 'LOOP UNTIL', 'LOOP WHILE', 'WHILE', 'FOR', 'SELECT CASE', 'IF') if k in src]
     return ', '.join(ks[:4]) or 'straight line'
 
 
@@ -322,6 +323,8 @@ def run(chk):
                 break
     chk.stats['statement-semantics'] = {'cases': len(sreqs), 'disagree': nsd, 'out_of_fuel': nfuel, 'reference_outcomes': sig_kinds}
     dist['structured_programs'] = len(sreqs)
+    dist['structured_programs_with_procedures'] = sum(1 for x in smeta if 'SUB p' in x)
+    dist['structured_programs_with_recursion'] = sum(1 for x in smeta if any(f'SUB p{i}' in x and f'CALL p{i}' in x.split(f'SUB p{i}')[1].split('END SUB')[0] for i in range(3)))
     chk.samples += [{'expr': tasks[i][0], 'leaves': {k: list(v) for k, v in tasks[i][1].items()}, 'reference': refs[i]} for i in range(3)]
     chk.cov['input_distribution'] = dist
     chk.cov['proved_subset'] = 'expressions (all operators x operand types, conversions, any depth); statements are validated, not proved'
